@@ -76,14 +76,17 @@ TEXT = {
  'C18': dict(level="C18_start (a measurement starts iff joined, 3..50 rounds, wallet given), C18_start_inv / C18_round (under the invariant LatInv - which start establishes "
                    "and every accepted round keeps - a measurement of n rounds issues exactly one ping per round and ends with one report carrying the request id, "
                    "session UUID, wallet, n, and exactly the n distinct ping ids, each answered once), C18_refuse / C18_refuse_answered (unknown or already "
-                   "answered ids are refused and change nothing), C18_stats_consistent (0 <= min <= mean <= max, p95 and last within [min,max] for 3..50 rounds).",
+                   "answered ids are refused and change nothing), C18_restart_answers_abandoned (a measurement given up for a new one is answered, with CONFLICT, exactly when one was running - "
+                   "finding F37), C18_stats_consistent (0 <= min <= mean <= max, p95 and last within [min,max] for 3..50 rounds). Recorded, not repaired (KNOWN-FINDING F37b): a measurement in "
+                   "progress is lost, unanswered, when its participant switches sessions.",
              note=_std_note + " The ECDSA signature and Keccak-256 are outside the model: the harness verifies every report's signature against the server key. "
-                  "Statistics are proved over natural-number microseconds; the tie to Go's float32 code is the STAT correspondence (latencies below 2^24). "
+                  "Statistics are proved over natural-number microseconds; the tie to Go's code (float32 latencies, float64 sum since the repair F30) is the STAT correspondence: rounds below 2^24 us each, sums past it. "
                   "Ping ids come from the nanosecond clock: distinctness of issued ids is a hypothesis (hfresh) of C18_round.", technique=_tech),
- 'C19': dict(level="Queue part proved: C19_answer (exactly one answer: BAD_REQUEST iff a field is empty, else TOO_BUSY iff the queue is full, else accepted; the step is total), "
+ 'C19': dict(level="Queue part proved: C19_answer (exactly one answer: BAD_REQUEST iff a field is empty, else TOO_BUSY iff the queue is full, else accepted; the step is total and never ends the connection - "
+                   "a refusal that did was closed over before it was written, finding F29), "
                    "C19_bounded, C19_conservation (over any event the forwarded-or-queued receipts are those of before plus exactly the accepted submission, unchanged, once), "
                    "C19_drain. The validity predicate (Keccak-256, signature recovery) and the HTTP forwarding are NOT modelled: they are exercised on the real "
-                   "HandleReceipts loop by go/cmd/receipts (valid triples, 12 single-field corruptions, service up/slow/down, queue full) against a reference validity written from the statement.",
+                   "HandleReceipts loop by go/cmd/receipts (valid triples, 12 single-field corruptions, service up/slow/down, queue full) against a reference validity written from the statement; that the answers reach the submitter over a real socket and that its connection goes on: go/cmd/wire scenario receipts.",
              note=_std_note + " Cryptographic primitives are oracles computed with go-ethereum; HTTP delivery is observed, not modelled.", technique=_tech + " + receipts side harness"),
  'C15': dict(level="C15_gate (the protected handler runs iff Auth.admit, and a rejected request leaves its state untouched), C15_sound (admission implies a held secret, a "
                    "well-formed HMAC-signed token whose MAC verifies against the current secret, unexpired, not before nbf, iat at most 10 s ahead), C15_rejects (no "
@@ -152,7 +155,9 @@ TEXT = {
                    "of the updates received, and their last element is the latest received; C11_latest_arrives: once nothing is in flight the last consumed is the last received; "
                    "C11_sched_invariant / C11_handle_takes_oldest: every connection of every reachable server state satisfies the scheduler invariant, so the server's consumption step "
                    "takes the oldest queued update of the entity; C11_applied / C11_dropped / C11_gone_stays_gone: the handler stores and relays exactly the consumed pose for the owner, "
-                   "drops unknown / foreign / pose-less updates without effect, and an id that is gone is never reissued. Not proved: wall-clock frame timing ('within a few frames'); that every "
+                   "drops unknown / foreign / pose-less updates without effect (a pose-less update never reaches the scheduler, where it would take the place of a waiting pose), and an id that is gone is never reissued. "
+                   "The model's receive step releases what waits for the frame before a join request is queued (handler.dispatch, finding F33): an update is handled between the same two join requests "
+                   "as it was sent - checked on every trace by the monitor update-carried-into-another-session. Not proved: wall-clock frame timing ('within a few frames'); that every "
                    "frame of a session reaches the connection of every member - joins, switches and departures racing with each other included - is measured (L1 harness after every tick, and right "
                    "after every explored concurrent block).",
              note=_std_note + " The scheduler lives in hagall-common (outside /repo): it is modelled from reading and tied by the correspondence (which message the real scheduler hands out is recorded "
